@@ -260,8 +260,9 @@ func c01GenPipe(r *rand.Rand, profile string) *c01PipeCase {
 		if h != nil && r.Intn(4) == 0 {
 			h[verifh.Pick(r, []string{"Host", "host", "Cookie", "cookie", "Content-Type", "content-type", "User-Agent"})] = []string{verifh.Pick(r, []string{"v.example", "a=1", "text/plain", "", "x y"})}
 		}
-		if h != nil && r.Intn(6) == 0 {
-			h["Cookie"] = []string{"pre=1", "second=2"}
+		if h != nil && r.Intn(16) == 0 {
+			// (kept rarer since round 6: with cookie objects this is the input class of finding C01-4)
+			h["Cookie"] = verifh.C01GenLines(r, "Cookie", nil)
 		}
 		// an empty Content-Type counts as absent for the sniffing step (masked below): keep it non-empty
 		if vs, ok := h["Content-Type"]; ok && (len(vs) == 0 || vs[0] == "") {
